@@ -4,7 +4,6 @@ import (
 	"flag"
 	"fmt"
 	"os"
-	"regexp"
 	"sort"
 	"strconv"
 	"strings"
@@ -21,6 +20,7 @@ type Ctx struct {
 	runtime    *EmittedPkg
 	runtimeErr error
 
+	c03roots       map[string]*RootInfo
 	extraWorldUnit *Unit
 }
 
@@ -154,117 +154,6 @@ func dumpMain(args []string) {
 					fmt.Println("=== unit", u.NameText())
 					fmt.Print(u.Text())
 				}
-			}
-		}
-	}
-}
-
-func init() {
-	props["PROBE"] = func(c *Ctx) {
-		c.R.Rule("P", "probe", 0)
-		for _, ri := range c.Roots() {
-			ex := c.ExploreDeep(ri.Fn, 1, 6000)
-			fmt.Printf("DEEP %s %s: runs=%d variants=%d aborted=%d points=%d problems=%d capped=%v\n", ri.Pkg, ri.Suffix, ex.Runs, len(ex.Variants), ex.Aborted, len(ex.Points), len(ex.Problems), ex.Capped)
-			for i, p := range ex.Problems {
-				if i < 4 {
-					fmt.Println("    ", p)
-				}
-			}
-		}
-	}
-}
-
-func init() {
-	props["PROBE2"] = func(c *Ctx) {
-		c.R.Rule("P", "probe", 0)
-		ri := c.Root(pkgClient, "_client.pb.go")
-		ex := c.ExploreDeep(ri.Fn, 2, 20000)
-		fmt.Printf("runs=%d variants=%d points=%d problems=%v\n", ex.Runs, len(ex.Variants), len(ex.Points), ex.Problems)
-		for _, pt := range ex.Points {
-			fmt.Printf("   point %-90s arity=%d\n", pt.Key, pt.Arity)
-		}
-		n := 0
-		for _, v := range ex.Variants {
-			for _, u := range v.Units {
-				_, f, err := ParseUnit(u)
-				if err != nil {
-					continue
-				}
-				if probs := importProblems(f); len(probs) > 0 {
-					n++
-					if n < 4 {
-						fmt.Println("IMPORT PROBLEM", probs, v.DecString())
-					}
-				}
-			}
-		}
-		fmt.Println("variants with import problems:", n)
-		for _, v := range ex.Variants {
-			t := v.Units[0].Text()
-			if strings.Contains(t, "url.Values") && !strings.Contains(t, "\"net/url\"") {
-				fmt.Println("FOUND url use without import:", v.DecString())
-				_, f, err := ParseUnit(v.Units[0])
-				fmt.Println("  parse err:", err, " problems:", importProblems(f))
-				break
-			}
-		}
-		m := 0
-		for _, v := range ex.Variants {
-			if strings.Contains(v.DecString(), "Method=5") || strings.Contains(v.DecString(), "Method=4") {
-				m++
-				if m < 6 {
-					t := v.Units[0].Text()
-					fmt.Println("  dec:", v.DecString(), " hasURLValues:", strings.Contains(t, "url.Values"), " importsURL:", strings.Contains(t, "\"net/url\""))
-				}
-			}
-		}
-	}
-}
-
-func init() {
-	props["PROBE3"] = func(c *Ctx) {
-		c.R.Rule("P", "probe", 0)
-		keyRe := regexp.MustCompile(`(raw|out|variantMap|childRaw|mapRaw)\[`)
-		for _, ri := range c.goUnitRoots() {
-			if ri.Pkg != pkgHTTP {
-				continue
-			}
-			ex := c.Explore(ri.Fn, 1, 6000)
-			enc, dec := map[string]bool{}, map[string]bool{}
-			for _, v := range ex.Variants {
-				for _, u := range v.Units {
-					dir := ""
-					for _, l := range u.Lines {
-						t := lineText(l.Segs)
-						if strings.HasPrefix(t, "func (x *") || strings.HasPrefix(t, "func (x ") {
-							if strings.Contains(t, "MarshalJSON()") {
-								dir = "enc"
-							} else if strings.Contains(t, "UnmarshalJSON(") {
-								dir = "dec"
-							} else {
-								dir = ""
-							}
-						}
-						if dir == "" || (!keyRe.MatchString(t) && !strings.Contains(t, "delete(") && !strings.Contains(t, "case \"")) {
-							continue
-						}
-						for _, sg := range l.Segs {
-							if sg.Hole != nil {
-								k := descRootRe.ReplaceAllString(eraseIters(sg.Hole.Key), "X.Desc.")
-								if dir == "enc" {
-									enc[k] = true
-								} else {
-									dec[k] = true
-								}
-							}
-						}
-					}
-				}
-			}
-			if len(enc)+len(dec) > 0 {
-				fmt.Println("UNIT", ri.Suffix)
-				fmt.Println("   enc:", sortedKeys(enc))
-				fmt.Println("   dec:", sortedKeys(dec))
 			}
 		}
 	}
